@@ -2146,6 +2146,7 @@ def check_C08(ctx):
                 rep.ob("C08.slotwise", short(path), False, "no impl Shifty for %s" % short(path))
                 return
             key = im2["items"]["shift_suit"]
+            ctx.check_shadow(path, "shift_suit", "Shifty", key, None)
             h = ctx.hand(path, n)
             sm = ctx.summ(key, [("r", h)], None, opaque={kshift})
             from .base import panic_free
